@@ -6,6 +6,7 @@ package main
 import (
 	"bytes"
 	"fmt"
+	"math/big"
 	"os"
 	"strings"
 
@@ -318,6 +319,37 @@ var mutAlphabet = func() []string {
 	return a
 }()
 
+// respell lists other spellings of the numeric literal lit (same value: decimal, hex, binary,
+// with underscores, upper-case prefix) and a few neighbouring values.
+func respell(lit string) []string {
+	v, ok := new(big.Int).SetString(strings.ReplaceAll(lit, "_", ""), 0)
+	if !ok || v.BitLen() > 64 {
+		return nil
+	}
+	seen := map[string]bool{lit: true}
+	var out []string
+	add := func(s string) {
+		if !seen[s] {
+			seen[s] = true
+			out = append(out, s)
+		}
+	}
+	add(v.Text(10))
+	add("0x" + strings.ToUpper(v.Text(16)))
+	add("0X" + v.Text(16))
+	add("0b" + v.Text(2))
+	if d := v.Text(10); len(d) > 1 {
+		add(d[:1] + "_" + d[1:])
+	}
+	add("0x0_" + v.Text(16))
+	for _, w := range []*big.Int{big.NewInt(0), new(big.Int).Sub(v, big.NewInt(1)), new(big.Int).Add(v, big.NewInt(1)), new(big.Int).Lsh(v, 1)} {
+		if w.Sign() >= 0 {
+			add(w.Text(10))
+		}
+	}
+	return out
+}
+
 // splice returns text with [a,b) replaced by mid (into buf).
 func splice(buf *[]byte, text []byte, a, b int, mid ...[]byte) []byte {
 	o := append((*buf)[:0], text[:a]...)
@@ -422,6 +454,16 @@ func (u *unit) enumDecl(e *env, yield func(in *input) bool) {
 		}
 		if !emit(splice(&buf, text, s.off, s.off, nl1), "newline-before", i, "") {
 			return
+		}
+		// a numeric literal in every other spelling of the same value (every stage that reads
+		// the digits itself must cope with all spellings the tokenizer accepts), and the
+		// neighbouring values 0, v-1, v+1, 2v that sit on the edges of small-integer checks
+		if tt := tokText(i); len(tt) > 0 && tt[0] >= '0' && tt[0] <= '9' {
+			for _, alt := range respell(string(tt)) {
+				if !emit(splice(&buf, text, s.off, s.end, []byte(alt)), "respell", i, fmt.Sprintf("as %q", alt)) {
+					return
+				}
+			}
 		}
 		for j, a := range A {
 			if (i+j)%S == 0 && string(tokText(i)) != a {
